@@ -387,10 +387,11 @@ def _amplitude_max_sites(prog, fi, depth=0, seen=None, roles=None):
 
 def _is_occupancy_mask(sl, fi, roles=None):
     """mask of the form <cycles> > 0 where <cycles> is .cycles of the collective or a local / parameter bound to it"""
-    cmp_ = [n for n in ast.walk(sl) if isinstance(n, ast.Compare)]
-    if len(cmp_) != 1 or not isinstance(cmp_[0].ops[0], ast.Gt) or const_value(cmp_[0].comparators[0]) != 0:
+    from ..astutil import oriented
+    cmp_ = [oriented(n) for n in ast.walk(sl) if isinstance(n, ast.Compare)]
+    if len(cmp_) != 1 or len(cmp_[0].ops) != 1 or not isinstance(cmp_[0].ops[0], ast.Lt) or const_value(cmp_[0].left) != 0:
         return False
-    l = cmp_[0].left
+    l = cmp_[0].comparators[0]                       # 0 < <cycles>
     if isinstance(l, ast.Attribute) and l.attr == "cycles":
         return True
     if isinstance(l, ast.Name):
